@@ -292,7 +292,7 @@ REGISTRY = {
         "assumptions": QUERY_ASSUMPTIONS,
     },
     "C17": {
-        "lean_modules": ["C17"],
+        "lean_modules": ["C17", "C17Sort"],
         "run": mk_query_runner(c17_opts, 500, 10000, data=True, stats=True, runner=queryfam.run_reprint_batches),
         "rule": "every generated request (filters of every operator x column type, nested negated groups, Stats counters/aggregates, Sort incl. custom variables, Limit/Offset, AuthUser; both parse modes) is parsed by the implementation, "
                 "serialised with Request.String(), re-parsed and evaluated; the answer must satisfy the specification of the original request",
